@@ -49,6 +49,7 @@ def verify_tree():
     forced = set()
     all_fail, seen = [], set()
     tool = []
+    tool_hist = []
     res = None
     b = None
     for attempt in range(6):
@@ -61,10 +62,21 @@ def verify_tree():
                 seen.add(k)
                 all_fail.append(f)
         hard = {f['fn'] for f in fails if f['fn'] and vrun.is_module_abort(f['msg'])} - forced
-        if not hard:
+        # rustc/VIR errors located in one function (typically ghost text that no longer matches an edited body):
+        # leave that function unverified (UNDECIDED for its properties only) and examine everything else
+        known = {c.name for c in b['contracts']}
+        comp = {t['fn'] for t in tool if t.get('compile') and t['fn'] in known} - forced
+        if any(t.get('compile') and t['fn'] not in known for t in tool):
+            comp = set()
+            if not hard:
+                break
+        for t in tool:
+            if t.get('compile') and t['fn'] in comp and t not in tool_hist:
+                tool_hist.append(t)
+        if not hard and not comp:
             break
-        forced |= hard   # assume the hard-failing functions' contracts, look at the rest of their module
-    return {'build': b, 'failures': all_fail, 'tool': tool, 'res': res, 'forced': sorted(forced)}
+        forced |= hard | comp
+    return {'build': b, 'failures': all_fail, 'tool': tool + [t for t in tool_hist if t not in tool], 'res': res, 'forced': sorted(forced)}
 
 
 def fn_results(res):
@@ -134,6 +146,9 @@ def main():
     assumed = [x for x in assumed if not x[1].startswith('LOST ANCHOR')]
     unchecked = [f for f in cone_fns if f not in fr and f not in [x[0] for x in assumed]]
     unchecked += ['%s (%s)' % lw for lw in lost_here if lw[0] not in unchecked]
+    forced_fns = set(V['forced'])
+    unchecked += [f for f in cone_fns if f in forced_fns and f not in unchecked]
+    tool_mine = [t for t in tool if t['fn'] is None or t['fn'] in cone_fns or t['fn'] not in {c_.name for c_ in b['contracts']}]
     known, fixed = load_known()
     violations, known_hits = [], []
     for f in mine:
@@ -164,9 +179,9 @@ def main():
             print('FAILED-OBLIGATION property=%s %s :: %s' % (pid, k, f['msg']))
         print('VIOLATION property=%s replay=%s%s' % (pid, replay_path, '' if found else ' no-failing-input-found'))
         rc = 1
-    elif tool or unchecked:
-        for t in tool[:10]:
-            print('UNDECIDED property=%s reason=%s' % (pid, t))
+    elif tool_mine or unchecked:
+        for t in tool_mine[:10]:
+            print('UNDECIDED property=%s reason=%s (line %s, fn %s)' % (pid, t['msg'], t['line'], t['fn']))
         for u in unchecked[:10]:
             print('UNDECIDED property=%s reason=function %s was not checked by the verifier' % (pid, u))
         rc = 2
@@ -187,7 +202,7 @@ def main():
             'solver_ms_total': sum(v['ms'] for k, v in fr.items() if k in cone_fns),
             'samples': [c.oid for c in clauses[:8]],
             'extraction_log': b['logs'],
-            'unchecked_functions': unchecked, 'tool_limits': tool[:20],
+            'unchecked_functions': unchecked, 'tool_limits': [t['msg'] + ' @' + str(t['fn']) for t in tool_mine[:20]],
             'known_findings_hit': [k for k, _ in known_hits],
             'verus_run_cached': res.get('cached', False), 'verus_wall_s': res.get('wall_s'),
             'forced_assumed_after_module_abort': V['forced'],
